@@ -129,7 +129,7 @@ CHECKS = {
     'C15': dict(
         level='exploration',
         units=[U('^TestC15_Stores$', (7, 2500), (8, 25000)), U('^TestC15_Sketch$', (7, 2000), (8, 20000))],
-        essential_labels=['level:store', 'level:sketch', 'kind:dense', 'kind:sparse', 'kind:paginated', 'kind:collow', 'kind:colhigh', 'collapsed-before-clear', 'pages-before-clear', 'h2-shifted-range', 'repeated-cycles', 'cleared-sketch-as-decode-target', 'variant:exact'],
+        essential_labels=['level:store', 'level:sketch', 'kind:dense', 'kind:sparse', 'kind:paginated', 'kind:collow', 'kind:colhigh', 'collapsed-before-clear', 'pages-before-clear', 'h2-shifted-range', 'repeated-cycles', 'cleared-sketch-as-decode-target', 'variant:exact', 'preclear:weights-underflow-to-zero', 'preclear:infinite-weight'],
         assumptions=COMMON_ASSUMPTIONS + ["encoded bytes of cleared vs fresh objects are not compared (the paginated store legitimately keeps its compaction threshold); decoded content is"],
     ),
     'C16': dict(
